@@ -57,6 +57,12 @@ Check truncation_prefix :
     exists k, sym_load (firstn (44 + j) (encode sp frames)) = LOk (s_rate sp) (firstn k frs).
 Print Assumptions truncation_prefix.
 
+Eval vm_compute in "THEOREM truncated_header_error"%string.
+Check truncated_header_error :
+  forall (sp : spec) (frames : list (list Z)) (k : nat),
+    (4 <= k < 44)%nat -> sym_load (firstn k (encode sp frames)) = LErr.
+Print Assumptions truncated_header_error.
+
 Eval vm_compute in "THEOREM frame_at_index_correct"%string.
 Check frame_at_index_correct :
   forall (F : Type) (zero : F) (audio : list F) (psize land : nat -> nat)
